@@ -195,7 +195,40 @@ func mkAdd(a, b string) string {
 	if oky && y == 0 {
 		return a
 	}
+	// (+ X c1) + c2  ->  (+ X c1+c2)
+	if oky {
+		if x0, c1, ok := splitPlusConst(a); ok {
+			return mkAdd(x0, mkInt(c1+y))
+		}
+	}
+	if okx {
+		if y0, c1, ok := splitPlusConst(b); ok {
+			return mkAdd(y0, mkInt(c1+x))
+		}
+	}
+	if oky && y < 0 {
+		return app("-", a, mkInt(-y))
+	}
 	return app("+", a, b)
+}
+
+// splitPlusConst recognises "(+ X c)" and "(- X c)" with an integer literal c.
+func splitPlusConst(t string) (string, int64, bool) {
+	if !(strings.HasPrefix(t, "(+ ") || strings.HasPrefix(t, "(- ")) || !strings.HasSuffix(t, ")") {
+		return "", 0, false
+	}
+	args := splitArgs(t[3 : len(t)-1])
+	if len(args) != 2 {
+		return "", 0, false
+	}
+	c, ok := isIntLit(args[1])
+	if !ok {
+		return "", 0, false
+	}
+	if t[1] == '-' {
+		c = -c
+	}
+	return args[0], c, true
 }
 
 func mkSub(a, b string) string {
@@ -206,6 +239,9 @@ func mkSub(a, b string) string {
 	}
 	if oky && y == 0 {
 		return a
+	}
+	if oky {
+		return mkAdd(a, mkInt(-y))
 	}
 	return app("-", a, b)
 }
@@ -334,4 +370,72 @@ func sortedKeys[M ~map[string]V, V any](m M) []string {
 	}
 	sort.Strings(ks)
 	return ks
+}
+
+// acc applies a datatype accessor, simplifying accessor-of-constructor.
+func acc(name, term string) string {
+	// name = "<field>_<Sort>" ; constructor = "mk_<Sort>"
+	i := strings.IndexByte(name, '_')
+	if i > 0 && strings.HasPrefix(term, "(mk_") {
+		sort := name[i+1:]
+		field := name[:i]
+		if strings.HasPrefix(term, "(mk_"+sort+" ") {
+			args := splitArgs(term[len("(mk_"+sort+" ") : len(term)-1])
+			var idx int = -1
+			switch {
+			case strings.HasPrefix(sort, "Sl_"):
+				idx = map[string]int{"base": 0, "off": 1, "len": 2, "nil": 3}[field]
+			case strings.HasPrefix(sort, "Mp_"):
+				idx = map[string]int{"dom": 0, "val": 1, "nil": 2}[field]
+			}
+			if idx >= 0 && idx < len(args) {
+				return args[idx]
+			}
+		}
+	}
+	return app(name, term)
+}
+
+// splitArgs splits a space-separated list of SMT terms at top level.
+func splitArgs(s string) []string {
+	var out []string
+	depth := 0
+	start := -1
+	inStr := false
+	for i := 0; i < len(s); i++ {
+		ch := s[i]
+		if inStr {
+			if ch == '"' {
+				inStr = false
+			}
+			continue
+		}
+		switch ch {
+		case '"':
+			inStr = true
+			if start < 0 {
+				start = i
+			}
+		case '(':
+			if start < 0 {
+				start = i
+			}
+			depth++
+		case ')':
+			depth--
+		case ' ':
+			if depth == 0 && start >= 0 {
+				out = append(out, s[start:i])
+				start = -1
+			}
+		default:
+			if start < 0 {
+				start = i
+			}
+		}
+	}
+	if start >= 0 {
+		out = append(out, s[start:])
+	}
+	return out
 }
